@@ -116,9 +116,9 @@ pub fn bits_of(data: &[[f32; 3]]) -> Vec<[u32; 3]> {
 pub fn special_px(px: &[u32; 3]) -> bool {
     px.iter().any(|b| {
         let f = f32::from_bits(*b);
-        // -0.0 too: `f32::max(-0.0, 0.0)` (used by the sRGB and HLG curves) may return either
-        // zero, and which one differs between build profiles and under Miri
-        !(f.is_finite() && f.abs() <= 1e30) || *b == 0x8000_0000
+        // (-0.0 is NOT special: `f32::max(-0.0, 0.0)` may return either zero, but within one
+        // build - and under Miri with deterministic floats - it returns the same one every time)
+        !(f.is_finite() && f.abs() <= 1e30)
     })
 }
 /// per-pixel mask of special input pixels; None when there is none (the common case)
@@ -303,7 +303,33 @@ const SPECIALS: [u32; 22] = [
     0x3f00_0000, // 0.5
 ];
 
+const RUN_PALETTE: [[u32; 3]; 6] = [
+    [0x0000_0000, 0x3e80_0000, 0x3f00_0000], // 0, .25, .5
+    [0x0000_0000, 0x0000_0000, 0x0000_0000],
+    [0x3f80_0000, 0x0000_0000, 0x3f00_0000],
+    [0x3f00_0000, 0x3f00_0000, 0x0000_0000],
+    [0x3e80_0000, 0x3f40_0000, 0x3f80_0000],
+    [0x0000_0000, 0x3f80_0000, 0x3f80_0000],
+];
+
 pub fn float_pixel(seed: u64, mode: u64, i: u64) -> [u32; 3] {
+    if mode == 6 {
+        // runs: pixel i belongs to the run that started at the last index whose "start" bit is
+        // set; inside a run every pixel is the run's palette entry, with the sign of its zeros
+        // flipped now and then (equal under ==, different bit patterns)
+        let mut start = i;
+        while start > 0 && mix(seed, 0x7000 + start) % 5 < 3 {
+            start -= 1;
+        }
+        let mut px = RUN_PALETTE[(mix(seed, 0x8000 + start) % RUN_PALETTE.len() as u64) as usize];
+        let flips = mix(seed, 0x9000 + i);
+        for (c, v) in px.iter_mut().enumerate() {
+            if *v == 0 && (flips >> (c * 4)) % 3 == 0 {
+                *v = 0x8000_0000;
+            }
+        }
+        return px;
+    }
     let mut out = [0u32; 3];
     for (c, o) in out.iter_mut().enumerate() {
         let r = mix(seed, i * 3 + c as u64);
@@ -374,10 +400,30 @@ pub fn yuv_sample(op: &Op, pl: usize, x: usize, y: usize) -> u16 {
             (lo + r % (hi - lo + 1)).min(cmax)
         }
         3 => *[0, cmax, cmax / 2 + 1, 16 * k, 235 * k, 240 * k, 1, cmax - 1].get((r % 8) as usize).unwrap_or(&0),
-        2 if has_oob_sample(op) => {
-            // valid everywhere except one visible sample chosen by the seed
+        6 | 7 if has_oob_sample(op) => {
+            // one out-of-range VALUE: everywhere (7), or at the mode-2 position and one to three
+            // more visible positions (6); everything else valid
+            let value = cmax + 1 + mix(op.dataseed, 0xe9) % (tmax - cmax);
             let (bw, bh, bp) = oob_position(op);
-            if pl == bp && x == bw && y == bh {
+            if op.datamode == 7 || (pl == bp && x == bw && y == bh) {
+                value
+            } else {
+                let (pw, ph) = plane_dims(op, pl);
+                let n = (pw * ph * 3).max(1) as u64;
+                let extra = 1 + mix(op.dataseed, 0xea) % 3;
+                // expected `extra` more hits over the three planes
+                if r % n < extra {
+                    value
+                } else {
+                    (r >> 20) % (cmax + 1)
+                }
+            }
+        }
+        2 | 5 if has_oob_sample(op) => {
+            // valid everywhere except one visible sample chosen by the seed (mode 5: and about
+            // every eighth other sample)
+            let (bw, bh, bp) = oob_position(op);
+            if (pl == bp && x == bw && y == bh) || (op.datamode == 5 && (r >> 50) % 8 == 0) {
                 cmax + 1 + r % (tmax - cmax)
             } else {
                 r % (cmax + 1)
@@ -401,7 +447,7 @@ fn oob_position(op: &Op) -> (usize, usize, usize) {
     (((r >> 8) % w as u64) as usize, ((r >> 32) % h as u64) as usize, pl)
 }
 pub fn has_oob_sample(op: &Op) -> bool {
-    op.datamode == 2 && op.which == 1 && op.cfg.bd < 16
+    matches!(op.datamode, 2 | 5 | 6 | 7) && op.which == 1 && op.cfg.bd < 16
 }
 
 
@@ -415,6 +461,15 @@ pub fn build_frame<T: Pixel>(op: &Op) -> Frame<T> {
             1 => (g[4] as usize, g[5] as usize),
             _ => (g[8] as usize, g[9] as usize),
         };
+        if op.consume != 0 {
+            // rows packed back to back; `from_slice` knows nothing about decimation, the public
+            // config fields are set afterwards
+            let data: Vec<T> = (0..w * h).map(|i| T::cast_from(yuv_sample(op, pl, i % w, i / w))).collect();
+            let mut p: Plane<T> = Plane::from_slice(&data, w);
+            p.cfg.xdec = xdec;
+            p.cfg.ydec = ydec;
+            return p;
+        }
         let (xpad, ypad) = (g[10 + 2 * pl] as usize, g[11 + 2 * pl] as usize);
         let mut p: Plane<T> = Plane::new(w, h, xdec, ydec, xpad, ypad);
         let (stride, xo, yo) = (p.cfg.stride, p.cfg.xorigin, p.cfg.yorigin);
